@@ -31,6 +31,12 @@ KNOWN = {
 
 def role_of_cid(program):
     out = {}
+    for f in program.get("funcs", []):
+        for d in f.get("decos", []):
+            if d["t"] == "require":
+                out[d["cid"]] = "pre"
+            elif d["t"] == "ensure":
+                out[d["cid"]] = "post"
     for c in program.get("classes", []):
         for i in c.get("invs", []):
             out[i["cid"]] = "inv"
